@@ -234,8 +234,10 @@ def run_case(case):
             if how != "closed" and not pending_forever:
                 try:
                     c, lines = await peer.cmd("PWD", 100.0)
-                    r1 = await peer.upload("STOR /d/follow.bin", scenario.payload("f", 2 * B + 1), passive="PASV", data_timeout=200.0)
-                    r2 = await peer.download("RETR /d/follow.bin", passive=case.get("passive", "EPSV"), connect="after", data_timeout=200.0)
+                    reuse = case.get("follow") == "reuse" and not late and mode != "never" and not open_data
+                    info["follow"] = "reuse" if reuse else "pasv"
+                    r1 = await peer.upload("STOR /d/follow.bin", scenario.payload("f", 2 * B + 1), passive=None if reuse else "PASV", data_timeout=200.0)
+                    r2 = await peer.download("RETR /d/follow.bin", passive=None if reuse else case.get("passive", "EPSV"), connect="after" if not reuse else "before", data_timeout=200.0)
                     okf = c == "257" and lines[0].startswith('"/d"') and r1["final"] == "226" and r2["final"] == "226" and r2["data"] == scenario.payload("f", 2 * B + 1)
                     if not okf:
                         viol.append({"clause": "session-unusable-after-abor", "subject": subject, "detail": f"follow-up: PWD {c} {lines}, STOR {r1['mark']}/{r1['final']}, RETR {r2['mark']}/{r2['final']} {len(r2['data'])} bytes"})
@@ -264,7 +266,7 @@ def run_case(case):
             "events": world.net.seq,
             "steps": world.loop.steps,
             "outcome": world.outcome,
-            "counters": {"faults.abor_sent": int("abor_sent_at" in info), "probe.abor_interrupted_426": int("426" in info.get("replies", [])), "probe.abor_after_completion": int(info.get("replies", [])[-2:] in (["226", "226"], ["200", "226"])), "probe.abor_before_data_conn": int(info.get("abor_phase") == "cmd-sent" and mode in ("after", "never")), "probe.data_conn_arrived_after_abor": int(bool(info.get("late_data_conn")))},
+            "counters": {"faults.abor_sent": int("abor_sent_at" in info), "probe.abor_interrupted_426": int("426" in info.get("replies", [])), "probe.abor_after_completion": int(info.get("replies", [])[-2:] in (["226", "226"], ["200", "226"])), "probe.abor_before_data_conn": int(info.get("abor_phase") == "cmd-sent" and mode in ("after", "never")), "probe.data_conn_arrived_after_abor": int(bool(info.get("late_data_conn"))), "probe.followup_reuses_listener": int(info.get("follow") == "reuse")},
             "groups": {"replies": {" ".join(info.get("replies", [])): 1}},
             "violations": _dedupe(viol),
             "k_cmd": info.get("k_cmd"),
@@ -314,7 +316,7 @@ def selftest_cases(n):
     r = random.Random(1414)
     out = []
     for i in range(n):
-        out.append({"verb": r.choice(VERBS), "seed": r.randrange(10**6), "size": r.choice([0, 1, 16, 33, 80]), "connect": r.choice(["before", "after", "never"]), "k": r.randrange(20, 140), "passive": r.choice(["EPSV", "PASV"])})
+        out.append({"verb": r.choice(VERBS), "seed": r.randrange(10**6), "size": r.choice([0, 1, 16, 33, 80]), "connect": r.choice(["before", "after", "never"]), "k": r.randrange(20, 140), "passive": r.choice(["EPSV", "PASV"]), "follow": r.choice(["reuse", "pasv"])})
     return out
 
 
@@ -364,6 +366,7 @@ def main(argv=None):
             for k in ks:
                 d = {kk: vv for kk, vv in case.items() if kk != "want_sample"}
                 d["k"] = k
+                d["follow"] = "reuse" if (k + d["seed"]) % 2 else "pasv"
                 plan.append(d)
         total = len(plan)
         for c in plan[:2]:
